@@ -23,7 +23,7 @@ RULE = (
     "and wrap options; to_csv(path); write(fileobj) and to_csv(fileobj) with caller-supplied objects; two-call sequences on one LASFile (a path call that succeeds or fails, then a call with the caller's file object); input-induced "
     "failures (no sections, LiDAR magic, header error, reshape error, strict decoding error, missing file, write() "
     "raising after open: missing VERS / duplicated STEP, to_csv raising after open); for every scenario the clean run's "
-    "proxied operation count N is measured and the call repeated with an injected OSError at operation k for k=1..N; "
+    "proxied operation count N is measured and the call repeated with an injected OSError at operation k for k=1..N; whenever lasio catches the fault and carries on (encoding probes), every later operation of that run is tried for a second fault (thorough: a third); "
     "after every run, with the exception object still referenced, every file lasio opened must be closed, "
     "caller-supplied objects must be open and vars(las) must hold no open file; non-trivial = injected run in which the "
     "fault fired"
@@ -163,7 +163,9 @@ SCEN.update({s[0]: ("seq",) + s[1:] for s in SEQ_SCENARIOS})
 
 
 def bounds(tier):
-    return {"scenarios": list(SCEN), "fault": "OSError at the k-th proxied operation, k = 1..N(clean run)"}
+    return {"scenarios": list(SCEN), "fault": "OSError at the k-th proxied operation, k = 1..N(clean run); when the call survives a fault "
+            "(lasio caught it and went on) every later operation of that run is tried for a further fault",
+            "max_faults_per_run": 2 if tier == "quick" else 3}
 
 
 _TMP = {}
@@ -255,7 +257,7 @@ def run_once(name, inject_at):
         for k, v in vars(las).items():
             if isinstance(v, (io.IOBase, faults.FileProxy)) and not v.closed:
                 holds.append(k)
-    res = {"trace_len": sess.count, "fired": sess.fired, "leaks": leaks, "caller_closed": caller_closed, "las_holds": holds,
+    res = {"trace_len": sess.count, "fired": sess.fired, "fired_all": list(sess.fired_all), "leaks": leaks, "caller_closed": caller_closed, "las_holds": holds,
            "outcome": "ok" if exc is None else type(exc).__name__, "opens": len(sess.proxies),
            "trace": [t[1] for t in sess.trace]}
     sess.close_all()
@@ -268,7 +270,7 @@ def run_once(name, inject_at):
     return res
 
 
-def check_scenario(name, only_k=None):
+def check_scenario(name, only_k=None, max_faults=2):
     vio = []
     evals = 0
     fired = 0
@@ -289,16 +291,34 @@ def check_scenario(name, only_k=None):
 
     if only_k in (None, 0):
         vio.extend(judge(clean, 0))
-    for k in range(1, n + 1):
-        if only_k is not None and k != only_k:
-            continue
-        r = run_once(name, k)
-        evals += 1
-        if r["fired"]:
-            fired += 1
-        if r["opens"] > clean["opens"]:
-            vio.append(V("more-opens-than-clean-run", name, k, clean["opens"], r, "harness"))
-        vio.extend(judge(r, k))
+    counters = {"evals": 0, "fired": 0, "multi": 0}
+
+    def explore(prefix, more):
+        """One run with faults at the operation numbers in `prefix`; if lasio swallowed the last fault and went on
+        (the trace is longer than the fault position), every later operation is a candidate for a further fault."""
+        r = run_once(name, tuple(prefix))
+        counters["evals"] += 1
+        if len(r["fired_all"]) == len(prefix):
+            counters["fired"] += 1
+            if len(prefix) > 1:
+                counters["multi"] += 1
+        if r["opens"] > clean["opens"] and len(prefix) == 1:
+            vio.append(V("more-opens-than-clean-run", name, list(prefix), clean["opens"], r, "harness"))
+        vio.extend(judge(r, list(prefix) if len(prefix) > 1 else prefix[0]))
+        if more > 0 and len(r["fired_all"]) == len(prefix) and r["trace_len"] > prefix[-1]:
+            for k2 in range(prefix[-1] + 1, r["trace_len"] + 1):
+                explore(prefix + [k2], more - 1)
+
+    if isinstance(only_k, list):
+        explore(list(only_k), 0)
+    else:
+        for k in range(1, n + 1):
+            if only_k is not None and k != only_k:
+                continue
+            explore([k], (max_faults - 1) if only_k is None else 0)
+    evals += counters["evals"]
+    fired += counters["fired"]
+    clean["multi_fault_runs"] = counters["multi"]
     return vio, evals, fired, clean
 
 
@@ -307,22 +327,22 @@ def V(clause, name, k, expected, r, base):
             "witness": {"scenario": name, "k": k},
             "expected": expected,
             "observed": {"leaks": r["leaks"], "outcome": r["outcome"], "fired": r["fired"], "caller_closed": r["caller_closed"], "las_holds": r["las_holds"]},
-            "size": k,
-            "repro": "scenario %s of lasiomc.checks.c20 with OSError injected at proxied operation %d (0 = no injection)" % (name, k)}
+            "size": k if isinstance(k, int) else sum(k) + 1000 * len(k),
+            "repro": "scenario %s of lasiomc.checks.c20 with OSError injected at proxied operation(s) %r (0 = no injection)" % (name, k)}
 
 
 def units(tier, seed):
-    return [{"scenario": n} for n in SCEN]
+    return [{"scenario": n, "max_faults": 2 if tier == "quick" else 3} for n in SCEN]
 
 
 def run_unit(unit):
     name = unit["scenario"]
-    vio, evals, fired, clean = check_scenario(name)
+    vio, evals, fired, clean = check_scenario(name, max_faults=unit.get("max_faults", 2))
     return {"evals": evals, "nontrivial": fired, "outcomes": {"%s:%s" % (name.split(":")[0], clean["outcome"]): 1},
             "violations": e1.compress(vio),
             "samples": [{"scenario": name, "clean_ops": clean["trace_len"], "opens": clean["opens"], "clean_outcome": clean["outcome"],
                          "trace_head": clean["trace"][:12]}],
-            "extra": {"clean_ops_total": clean["trace_len"], "opens_total": clean["opens"]}}
+            "extra": {"clean_ops_total": clean["trace_len"], "opens_total": clean["opens"], "multi_fault_runs": clean.get("multi_fault_runs", 0)}}
 
 
 def replay(witness):
